@@ -125,6 +125,12 @@ func generateOne(p *Program, key string, workDir string, harness bool) *FuncResu
 		o.File = filepath.Join(dir, sanitizeFile(o.Name)+".smt2")
 		os.WriteFile(o.File, []byte(script), 0o644)
 		o.Size = len(script)
+		if !o.Canary {
+			if sf := o.scriptFiltered(ex.globalFacts); len(sf) < len(script)*9/10 {
+				o.FileF = filepath.Join(dir, sanitizeFile(o.Name)+".f.smt2")
+				os.WriteFile(o.FileF, []byte(sf), 0o644)
+			}
+		}
 		// free term references
 		o.Facts, o.Goal, o.Axioms = nil, nil, nil
 	}
